@@ -111,7 +111,7 @@ func runMutantChild(name string) int {
 	one := *pd
 	one.Rules = nil
 	for _, r := range pd.Rules {
-		if r.ID == v.Rule {
+		if r.ID == v.Rule || v.Rule == "*" {
 			one.Rules = append(one.Rules, r)
 		}
 	}
